@@ -1064,12 +1064,19 @@ func (edb *EventDb) addStat(event Event) (err error) {
 			return ErrInvalidEventData
 		}
 		users := make([]User, 0, len(*bms))
+		userIdx := make(map[string]int, len(*bms))
 		authMint := make(map[string]currency.Coin)
 		for _, bm := range *bms {
-			users = append(users, User{
-				UserID:    bm.UserID,
-				MintNonce: bm.MintNonce,
-			})
+			// one row per user (the latest mint nonce): an upsert cannot touch a row twice
+			if i, ok := userIdx[bm.UserID]; ok {
+				users[i].MintNonce = bm.MintNonce
+			} else {
+				userIdx[bm.UserID] = len(users)
+				users = append(users, User{
+					UserID:    bm.UserID,
+					MintNonce: bm.MintNonce,
+				})
+			}
 
 			for _, sig := range bm.Signers {
 				mv, ok := authMint[sig]
